@@ -9,14 +9,23 @@
    make_tests raises; which queue.get() is interrupted; which of main's own stop() calls raise; whether
    what is raised is an Exception) or of the stream suite (sinput); sched = ANY list of thread numbers
    (0 = the caller of run(), w+1 = the worker of sub-suite w); creach i sched / sreach i sched = the
-   configuration after that schedule (an entry naming a blocked or finished thread is a no-op). *)
+   configuration after that schedule (an entry naming a blocked or finished thread is a no-op).
+   Stream: worker w = the StreamToQueue object of the w-th sub-suite; the route codes make_tests assigns
+   (si_routes, `sroute i w`) are arbitrary - None, equal for several sub-suites - and identify nobody. *)
 From TT Require Import Lib.Base Model.Tfr Model.Concur Spec.C12 Spec.C13 Corr.C13 Proof.C12 Proof.C13 Proof.C13Classic Proof.C13Thms.
 
-(* The model meets the whole statement for every number of sub-suites, every script, every fault
-   placement and every schedule given to the harness scheduler (which then runs all threads to their end). *)
+(* The model meets the whole statement for every number of sub-suites, every script, every route-code
+   assignment (None, equal codes for several sub-suites), every fault placement and every schedule given to
+   the harness scheduler (which then runs all threads to their end). *)
 Theorem C13_holds : forall i : input, spec_okb i (model i) = true.
 Proof. exact model_meets_spec. Qed.
 Print Assumptions C13_holds.
+
+(* a worker puts on the queue exactly the events the statement expects from its sub-suite, whatever its route
+   code is - under None the event's own route code travels unchanged (F26, repaired by 866c44b) *)
+Theorem C13_sends : forall rt w base s, ev_of (emits rt w base s) = sent_events rt base s.
+Proof. exact emits_clean. Qed.
+Print Assumptions C13_sends.
 
 (* ... and the executable statement implies the readable one (Spec.C13.Spec). *)
 Theorem C13_statement : forall i o, spec_okb i o = true -> Spec i o.
@@ -45,7 +54,7 @@ Theorem C13_each_once_stream : forall i sched, let c := sreach i sched in
   spawns (s_log c) = seq 0 (length (s_workers c))
   /\ length (s_workers c) <= started (length (si_suites i)) (si_mt_raise i)
   /\ forall w todo, nth_error (s_workers c) w = Some todo ->
-       exists s, nth_error (si_suites i) w = Some s /\ fw w (putsq (s_log c)) ++ todo = worker_puts w (si_base i) s.
+       exists s, nth_error (si_suites i) w = Some s /\ fw w (putsq (s_log c)) ++ todo = worker_puts (sroute i w) w (si_base i) s.
 Proof. exact stream_each_once. Qed.
 Print Assumptions C13_each_once_stream.
 
@@ -89,15 +98,15 @@ Print Assumptions C13_one_at_a_time.
 Theorem C13_delivery_stream : forall i sched w s, let c := sreach i sched in
   nth_error (si_suites i) w = Some s -> w < length (s_workers c) ->
   (forall x, In x (delivered w (s_log c)) -> has_ts (snd (fst x)) = true)
-  /\ exists rest, map to3 (delivered w (s_log c)) ++ rest = ev_of (emits w (si_base i) s)
+  /\ exists rest, map to3 (delivered w (s_log c)) ++ rest = ev_of (emits (sroute i w) w (si_base i) s)
        /\ (s_main c = SMDone -> s_raised c = false -> rest = []).
 Proof. exact stream_delivery. Qed.
 Print Assumptions C13_delivery_stream.
 
 (* timestamps: whatever a stream worker emits - keyword left out, timestamp=None passed explicitly, or its own
    datetime - is queued with a timestamp (its own one kept), so by C13_delivery_stream reaches the caller so *)
-Theorem C13_stamped : forall w base s,
-  Forall (fun e : nat * nat * option nat * tstamp => has_ts (snd e) = true) (ev_of (emits w base s)).
+Theorem C13_stamped : forall rt w base s,
+  Forall (fun e : nat * nat * rcode * tstamp => has_ts (snd e) = true) (ev_of (emits rt w base s)).
 Proof. exact emits_has_ts. Qed.
 Print Assumptions C13_stamped.
 
@@ -116,10 +125,10 @@ Print Assumptions C13_broken_runner.
 
 (* broken_runner, stream: a sub-suite whose run() raises an Exception emits its events so far and then the
    broken-runner test (inprogress, fail); nothing more if it was not an Exception *)
-Theorem C13_broken_runner_stream : forall w pre rest, (forall x, In x pre -> x <> SRaise) ->
-  emits w false (pre ++ SRaise :: rest)
-    = emits w false pre ++ [QStatus w br_id st_inprogress None TNow; QStatus w br_id st_fail None TNow]
-  /\ emits w true (pre ++ SRaise :: rest) = emits w true pre.
+Theorem C13_broken_runner_stream : forall rt w pre rest, (forall x, In x pre -> x <> SRaise) ->
+  emits rt w false (pre ++ SRaise :: rest)
+    = emits rt w false pre ++ [QStatus w br_id st_inprogress (rt, None) TNow; QStatus w br_id st_fail (rt, None) TNow]
+  /\ emits rt w true (pre ++ SRaise :: rest) = emits rt w true pre.
 Proof. exact stream_broken_runner. Qed.
 Print Assumptions C13_broken_runner_stream.
 
@@ -174,13 +183,15 @@ Print Assumptions C13_terminates_stream.
 (* non-vacuity: (1) classic, two sub-suites, the second one's run() raises: its worker reports the
    broken-runner error, run() returns with nobody alive; (2) stream, the caller's result raises at its third
    event (the broken-runner 'inprogress' of worker 1): run() raises, both unreaped workers are told to stop;
+   two sub-suites with the SAME route code 4 are told apart;
    (3) classic, the first queue.get() is interrupted: stop() is called for both workers *)
 Example C13_example :
   let ci := {| ci_suites := [([RStartTest 1; ROutcome KSuccess 1; RStopTest 1], []); ([RStartTest 2; RRaise], [])];
                ci_mt_raise := None; ci_get_intr := None; ci_main_faults := []; ci_base := false;
                ci_sched := [1; 2; 2; 1; 0; 2] |} in
   let o := model (IClassic ci) in
-  let si := {| si_suites := [[SEv 1 0 None TsOmit; SEv 1 1 None TsNone]; [SEv 2 0 (Some 1) (TsAt 7); SRaise]]; si_mt_raise := None;
+  let si := {| si_suites := [[SEv 1 0 None TsOmit; SEv 1 1 None TsNone]; [SEv 2 0 (Some 1) (TsAt 7); SRaise]];
+               si_routes := [Some 4; Some 4]; si_mt_raise := None;
                si_get_intr := None; si_main_faults := [2]; si_base := false;
                si_sched := [0; 0; 1; 2; 0; 0; 1; 2; 0; 0; 2; 2] |} in
   let o2 := model (IStream si) in
@@ -194,7 +205,7 @@ Example C13_example :
   /\ outcomes_of_log (proj 1 (cg_log (o_trace o))) = [(KSuccess, 1)]
   /\ outcomes_of_log (proj 2 (cg_log (o_trace o))) = [(KError, br_id)]
   /\ (o_raised o2, o_deadlock o2, o_stops o2) = (true, false, [0; 1])
-  /\ delivered 0 (o_trace o2) = [(1, 0, None, TNow, false)]
-  /\ delivered 1 (o_trace o2) = [(2, 0, Some 1, TOwn 7, false); (br_id, 0, None, TNow, true)]
+  /\ delivered 0 (o_trace o2) = [(1, 0, (Some 4, None), TNow, false)]
+  /\ delivered 1 (o_trace o2) = [(2, 0, (Some 4, Some 1), TOwn 7, false); (br_id, 0, (Some 4, None), TNow, true)]
   /\ (o_raised o3, o_deadlock o3, o_stops o3, main_stops (o_trace o3)) = (true, false, [0; 1], [false; false]).
 Proof. vm_compute. repeat split. Qed.
